@@ -1030,6 +1030,56 @@ func laFooterMeta(c *Ctx, rule string, which map[string]bool) {
 		r.count(rule+"/total-byte-size", n)
 		r.floor(rule+"/total-byte-size", 1, "Footer")
 	}
+	if which["totals"] {
+		// a chunk's path_in_schema is the column's path as a list — never re-derived from the dotted name, which is
+		// ambiguous as soon as a name contains the separator
+		pis := schemaField(u, "ColumnMetaData", "PathInSchema")
+		n := 0
+		if pis != nil {
+			cc, co := storesTo(u, pis)
+			for _, st := range append(cc, co...) {
+				if u.pkgPathOf(st.Parent()) != rtPath {
+					continue
+				}
+				n++
+				key := u.FnName(st.Parent()) + " ColumnMetaData.PathInSchema"
+				derived := ""
+				seen := map[ssa.Value]bool{}
+				var walk func(v ssa.Value, d int)
+				walk = func(v ssa.Value, d int) {
+					if d > 6 || seen[v] {
+						return
+					}
+					seen[v] = true
+					switch x := v.(type) {
+					case *ssa.Call:
+						if sc := x.Call.StaticCallee(); sc != nil && sc.Pkg != nil && sc.Pkg.Pkg.Path() == "strings" {
+							derived = sc.Name()
+						}
+						if bi, ok := x.Call.Value.(*ssa.Builtin); ok && bi.Name() == "append" {
+							for _, a := range x.Call.Args {
+								walk(a, d+1)
+							}
+						}
+					case *ssa.Phi:
+						for _, e := range x.Edges {
+							walk(e, d+1)
+						}
+					case *ssa.Slice:
+						walk(x.X, d+1)
+					}
+				}
+				walk(st.Val, 0)
+				if derived != "" {
+					r.bad(rule, key, u.Pos(st.Pos()), "the chunk's path_in_schema is rebuilt with strings."+derived+" from a joined name: for a column or group whose name contains the separator the path no longer matches the schema's elements")
+				} else {
+					r.ok(rule, key, u.Pos(st.Pos()), "the column's own path list")
+				}
+			}
+		}
+		r.count(rule+"/path-in-schema", n)
+		r.floor(rule+"/path-in-schema", 1, "updateColumnChunk")
+	}
 	if which["rows"] {
 		// Metadata.RowGroups(): Rows <- NumRows
 		n := 0
@@ -1089,12 +1139,14 @@ func laFooterMeta(c *Ctx, rule string, which map[string]bool) {
 		}
 		// where the tail was read: Seek(k, io.SeekEnd) in getMetaDataSize
 		tailK, found := int64(0), false
-		for _, b := range gs.Blocks {
-			for _, ins := range b.Instrs {
-				if call, ok := ins.(*ssa.Call); ok && call.Call.IsInvoke() && call.Call.Method.Name() == "Seek" && constIs(call.Call.Args[1], 2) {
-					if k, ok := call.Call.Args[0].(*ssa.Const); ok && k.Value != nil {
-						tailK, _ = constant.Int64Val(k.Value)
-						found = true
+		for _, g := range unitFns(u, gs) {
+			for _, b := range g.Blocks {
+				for _, ins := range b.Instrs {
+					if call, ok := ins.(*ssa.Call); ok && call.Call.IsInvoke() && call.Call.Method.Name() == "Seek" && constIs(call.Call.Args[1], 2) {
+						if k, ok := call.Call.Args[0].(*ssa.Const); ok && k.Value != nil {
+							tailK, _ = constant.Int64Val(k.Value)
+							found = true
+						}
 					}
 				}
 			}
